@@ -20,7 +20,7 @@ def sh(cmd, cwd, env=None, timeout=1800):
 
 def main():
     wt, pid, m = sys.argv[1], sys.argv[2], sys.argv[3]
-    props = [pid]
+    props = [pid[:3]]
     tier = "quick"
     for i, a in enumerate(sys.argv):
         if a == "--props":
@@ -29,8 +29,8 @@ def main():
             tier = sys.argv[i + 1]
     out = os.path.join(wt, "_out")
     diff = os.path.join(out, m + ".diff")
-    demos = glob.glob(os.path.join(out, "zz_demo_%s_%s_test.go" % (pid, m)))
-    meta = {"id": "%s-%s" % (pid, m), "property": pid, "source": "independent sub-agent given only the property text and a scratch worktree",
+    demos = glob.glob(os.path.join(out, "zz_demo_%s_%s_test.go" % (pid[:3], m))) or glob.glob(os.path.join(out, "zz_demo_*%s*_test.go" % m))
+    meta = {"id": "%s-%s" % (pid, m), "property": pid[:3], "source": "independent sub-agent given only the property text and a scratch worktree",
             "ran": []}
     notes = os.path.join(out, "notes.md")
     if os.path.exists(notes):
@@ -42,29 +42,45 @@ def main():
         meta["confirmed"] = False
         meta["why"] = "patch does not apply: " + o[-500:]
         return finish(meta, out, diff, demos, pid, m)
-    rc, o = sh("go build ./... ", os.path.join(wt, "grpcgcp"))
-    meta["ran"].append({"cmd": "go build ./...", "rc": rc})
+    base_pid = pid[:3]
+    moddir = {"C18": "spanner_prober", "C19": "e2e-checksum"}.get(base_pid, "grpcgcp")
+    rc, o = sh("go build -o /dev/null ./... " if moddir != "grpcgcp" else "go build ./... ", os.path.join(wt, moddir))
+    meta["ran"].append({"cmd": "go build ./... (%s)" % moddir, "rc": rc, "tail": o[-300:]})
     builds = rc == 0
-    rc, o = sh("go test -vet=off -count=1 . ./multiendpoint/", os.path.join(wt, "grpcgcp"))
-    meta["ran"].append({"cmd": "go test -vet=off -count=1 . ./multiendpoint/ (with patch)", "rc": rc, "tail": o[-400:]})
-    units = rc == 0
+    if moddir == "grpcgcp":
+        ucmd = "go test -vet=off -count=1 . ./multiendpoint/"
+    elif moddir == "spanner_prober":
+        ucmd = "go test -vet=off -count=1 ./..."
+    else:
+        ucmd = "true"
+    def units_ok(rc, o):
+        if moddir == "spanner_prober":   # TestValidFlags/invalid_options fails on the unchanged tree already
+            fails = [l for l in o.split("\n") if l.startswith("--- FAIL") or l.strip().startswith("--- FAIL")]
+            return all("TestValidFlags" in l for l in fails) and "panic:" not in o and "build failed" not in o
+        return rc == 0
+    rc, o = sh(ucmd, os.path.join(wt, moddir))
+    meta["ran"].append({"cmd": ucmd + " (with patch)", "rc": rc, "tail": o[-400:]})
+    units = units_ok(rc, o)
     if not units:   # timing tests are load sensitive: one retry
-        rc, o = sh("go test -vet=off -count=1 . ./multiendpoint/", os.path.join(wt, "grpcgcp"))
+        rc, o = sh(ucmd, os.path.join(wt, moddir))
         meta["ran"].append({"cmd": "retry unit tests (with patch)", "rc": rc, "tail": o[-400:]})
-        units = rc == 0
+        units = units_ok(rc, o)
     demo_fail = demo_pass = None
     demo_dir = None
     if demos:
         src = open(demos[0]).read()
         pkg = re.search(r"^package (\w+)", src, re.M).group(1)
-        demo_dir = os.path.join(wt, "grpcgcp") if pkg == "grpcgcp" else os.path.join(wt, "grpcgcp", "multiendpoint")
+        demo_dir = {"grpcgcp": os.path.join(wt, "grpcgcp"), "multiendpoint": os.path.join(wt, "grpcgcp", "multiendpoint"),
+                    "prober": os.path.join(wt, "spanner_prober", "prober"),
+                    "main": os.path.join(wt, moddir)}.get(pkg, os.path.join(wt, "grpcgcp"))
         dst = os.path.join(demo_dir, os.path.basename(demos[0]))
         shutil.copy(demos[0], dst)
-        rc, o = sh("go test -vet=off -count=1 -run 'Demo' .", demo_dir)
+        race = " -race" if base_pid == "C10" else ""
+        rc, o = sh("go test -vet=off -count=1%s -run 'Demo' ." % race, demo_dir)
         meta["ran"].append({"cmd": "demo with patch", "rc": rc, "tail": o[-600:]})
         demo_fail = rc != 0
         sh("git apply -R %s" % diff, wt)
-        rc, o = sh("go test -vet=off -count=1 -run 'Demo' .", demo_dir)
+        rc, o = sh("go test -vet=off -count=1%s -run 'Demo' ." % race, demo_dir)
         meta["ran"].append({"cmd": "demo without patch", "rc": rc, "tail": o[-300:]})
         demo_pass = rc == 0
         os.remove(dst)
@@ -72,7 +88,7 @@ def main():
     meta["confirmed"] = bool(builds and units and demo_fail and demo_pass)
     meta["builds"], meta["unit_tests_pass"], meta["demo_fails_with"], meta["demo_passes_without"] = builds, units, demo_fail, demo_pass
     # test_grpc (fixed port: serialised by a lock file)
-    if "--grpc" in sys.argv and meta["confirmed"]:
+    if "--grpc" in sys.argv and meta["confirmed"] and moddir == "grpcgcp":
         import fcntl
         with open("/tmp/verif-testgrpc.lock", "w") as lk:
             fcntl.flock(lk, fcntl.LOCK_EX)
